@@ -30,23 +30,11 @@ theorem instanceLoopEvents_eq : Gen.RespGuard.instanceLoopEvents = [
     "if SHOOT-COND {Shoot} else {DiscardedShootSample;Report}",
     "return nil"] := rfl
 
-/-- the waiter: `Wait` stores how late the token is against the CURRENT time (model `waiterOverdue`: the three places
-that write `overdueDuration` before `return true`), `IsSlowDown` compares it with `MaxOverdueDuration` (model `isSlowDown`) -/
-theorem waiterWaitStmts_eq : Gen.RespGuard.waiterWaitStmts = [
-    "select { case <-v0.Done(): v1.overdueDuration = 0 return false default: }",
-    "v2, v3 := v1.sched.Next()",
-    "if !v3 { v1.overdueDuration = 0 return false }",
-    "v4 := v2.Sub(v1.lastNow)",
-    "if v4 <= 0 { v1.lastNow = time.Now() v1.overdueDuration = v1.lastNow.Sub(v2) return true }",
-    "v1.lastNow = time.Now()",
-    "v4 = v2.Sub(v1.lastNow)",
-    "if v4 <= 0 { v1.overdueDuration = 0 - v4 return true }",
-    "v1.overdueDuration = 0",
-    "if v1.timer == nil { v1.timer = time.NewTimer(v4) } else { v1.timer.Reset(v4) }",
-    "select { case <-v1.timer.C: return true case <-v0.Done(): return false }"] := rfl
-
-theorem waiterIsSlowDownStmts_eq : Gen.RespGuard.waiterIsSlowDownStmts = [
-    "select { case <-v0.Done(): return false default: return v1.overdueDuration >= MaxOverdueDuration }"] := rfl
+/-! the waiter: until round 5 two lemmas pinned the canonical STATEMENTS of `Wait` / `IsSlowDown` here (`waiterWaitStmts_eq`,
+`waiterIsSlowDownStmts_eq`): every harmless respelling alarmed. Round 6: both are regenerated as FUNCTIONS by gen area `waiter`
+(`Gen.Waiter.Wait`, `IsSlowDown`) and proved equal to the model in `Bridge.Waiter` (`Wait_eq`, `IsSlowDown_eq`), which
+Props/C19.lean imports through Proofs/C19R6.lean (`C19_slow_answer_costs_only_late_tokens`). `Gen.RespGuard.waiterWaitStmts`
+stays in the generated file for information. -/
 
 theorem maxOverdueNanos_eq : Gen.RespGuard.maxOverdueNanos = maxOverdue := rfl
 
